@@ -246,10 +246,12 @@ def compare_counts(ctx, m, st, tag):
     for kind, _ in st.schema.classes:
         ctx.hit('Count.restricted-kind')
         e, _ = st.uniqueness_violations(kind)
-        g = xtuml.check_uniqueness_constraint(m, kind)
-        if g != e:
-            raise Mismatch('uniqueness-count/restricted', '%s: restricted to %s reports %d, present %d'
-                           % (tag, kind, g, e))
+        # class names are case-insensitive: the restriction means the same class under every spelling
+        for spelled in (kind, kind.swapcase(), kind.upper(), kind.lower()):
+            g = xtuml.check_uniqueness_constraint(m, spelled)
+            if g != e:
+                raise Mismatch('uniqueness-count/restricted', '%s: restricted to %s (declared as %s) reports %d, present %d'
+                               % (tag, spelled, kind, g, e))
     if exp_a:
         ctx.hit('Count.nonzero-association')
     if exp_u:
@@ -345,7 +347,7 @@ def cli_checks(ctx, rng, schema, pop, st, text, tmpdir, process):
     for r in sub_r:
         args += [rng.choice(('-r', '-R')), str(r)]
     for k in sub_k:
-        args += ['-k', k]
+        args += ['-k', rng.choice((k, k, k.swapcase(), k.upper(), k.lower()))]
     exp = (sum(st.association_violations(r) for r in sub_r) if sub_r else st.association_violations())
     exp += (sum(st.uniqueness_violations(k)[0] for k in sub_k) if sub_k else st.uniqueness_violations()[0])
     ctx.hit('Cli.main-return')
@@ -419,7 +421,7 @@ def bp_cli(ctx, rng, full, tmpdir, process):
     for r in sub_r:
         args += ['-r', str(r)]
     for k in sub_k:
-        args += ['-k', k]
+        args += ['-k', rng.choice((k, k, k.swapcase(), k.lower()))]
     exp = (sum(st.association_violations(r) for r in sub_r) if sub_r else st.association_violations())
     exp += (sum(st.uniqueness_violations(k)[0] for k in sub_k) if sub_k else st.uniqueness_violations()[0])
     ctx.hit('Cli.bridgepoint-main')
